@@ -39,7 +39,74 @@ def eq_mod(i, m):
                 and all(eq_mod(i[k], m[k]) for k in m))
     if isinstance(m, list):
         return isinstance(i, list) and len(i) == len(m) and all(eq_mod(a, b) for a, b in zip(i, m))
-    return type(i) is type(m) and i == m
+    if type(i) is not type(m):
+        return False
+    return i == m or (isinstance(i, str) and same_graphql_value(i, m))
+
+
+def graphql_value_tokens(text):
+    """tokens of a GraphQL value literal with string values decoded, or None if `text` is not one.
+    Used only to compare two different strings: `defaultValue` is "a String encoding (using the GraphQL
+    language) of the default value", so two encodings of the same value (other escape sequences, other
+    white space) are the same observation.  Number spellings are kept as they are."""
+    toks, n, k = [], len(text), 0
+    esc = {'"': '"', "\\": "\\", "/": "/", "b": "\b", "f": "\f", "n": "\n", "r": "\r", "t": "\t"}
+    while k < n:
+        c = text[k]
+        if c in " \t,\n\r\ufeff":
+            k += 1
+        elif c in "[]{}:$!":
+            toks.append(c)
+            k += 1
+        elif c == '"':
+            if text.startswith('"""', k):
+                return None
+            k += 1
+            out = []
+            while True:
+                if k >= n or text[k] in "\n\r":
+                    return None
+                c = text[k]
+                if c == '"':
+                    k += 1
+                    break
+                if c == "\\":
+                    if k + 1 >= n:
+                        return None
+                    e = text[k + 1]
+                    if e == "u":
+                        h = text[k + 2:k + 6]
+                        if len(h) != 4 or any(x not in "0123456789abcdefABCDEF" for x in h):
+                            return None
+                        out.append(chr(int(h, 16)))
+                        k += 6
+                    elif e in esc:
+                        out.append(esc[e])
+                        k += 2
+                    else:
+                        return None
+                else:
+                    if ord(c) < 0x20 and c != "\t":
+                        return None
+                    out.append(c)
+                    k += 1
+            toks.append(("s", "".join(out)))
+        elif c.isascii() and (c.isalnum() or c in "_-+."):
+            j = k
+            while j < n and text[j].isascii() and (text[j].isalnum() or text[j] in "_-+."):
+                j += 1
+            toks.append(("w", text[k:j]))
+            k = j
+        else:
+            return None
+    return toks
+
+
+def same_graphql_value(a, b):
+    if not a or not b or a[0] not in '"[{' or b[0] not in '"[{':
+        return False
+    ta = graphql_value_tokens(a)
+    return ta is not None and ta == graphql_value_tokens(b)
 
 
 def diffs(i, m, path, out, limit=40):
